@@ -6,6 +6,6 @@ CONSTANTS
   Packages = {}
   K = 4
   Fmts = {"xlsx", "pptx", "epub"}
-  Wide = FALSE
+  Wide = "some"
 CONSTRAINT Emit
 CHECK_DEADLOCK FALSE
